@@ -5,9 +5,9 @@ package enumx
 // strings.Fields and unicode.IsSpace react to), invisible / format characters that
 // "sanitising" code tends to strip (BOM U+FEFF, zero-width, soft hyphen), the replacement
 // character, a few control bytes, 2-, 3- and 4-byte letters (incl. the case-folding
-// oddities U+0130 and U+212A), and malformed UTF-8 of every kind (lone lead and continuation
+// oddities U+0130, U+212A, and runes whose lower/upper-case form has ANOTHER LENGTH in UTF-8: U+023A, U+023E, U+1E9E, U+017F, U+FB03), and malformed UTF-8 of every kind (lone lead and continuation
 // bytes, truncated, overlong, surrogate, beyond U+10FFFF, 0xFE/0xFF, Latin-1 e-acute).
 var HostileRunes = []string{
-	"\x09", "\x0a", "\x0b", "\x0c", "\x0d", "\x20", "\u0085", "\u00a0", "\u1680", "\u2000", "\u2001", "\u2002", "\u2003", "\u2004", "\u2005", "\u2006", "\u2007", "\u2008", "\u2009", "\u200a", "\u2028", "\u2029", "\u202f", "\u205f", "\u3000", "\ufeff", "\u200b", "\u200c", "\u200d", "\u2060", "\u00ad", "\u180e", "\ufffd", "\ufffe", "\x00", "\x01", "\x1d", "\x7f", "\u00e9", "\u0130", "\u212a", "\u20ac", "\U0001f600",
+	"\x09", "\x0a", "\x0b", "\x0c", "\x0d", "\x20", "\u0085", "\u00a0", "\u1680", "\u2000", "\u2001", "\u2002", "\u2003", "\u2004", "\u2005", "\u2006", "\u2007", "\u2008", "\u2009", "\u200a", "\u2028", "\u2029", "\u202f", "\u205f", "\u3000", "\ufeff", "\u200b", "\u200c", "\u200d", "\u2060", "\u00ad", "\u180e", "\ufffd", "\ufffe", "\x00", "\x01", "\x1d", "\x7f", "\u00e9", "\u0130", "\u212a", "\u023a", "\u023e", "\u1e9e", "\u017f", "\ufb03", "\u20ac", "\U0001f600",
 	"\xc2", "\xa0", "\x85", "\xe2\x80", "\xc0\x80", "\xed\xa0\x80", "\xf4\x90\x80\x80", "\xff", "\xfe\xff", "\xef\xbb", "\xe9",
 }
